@@ -13,6 +13,7 @@ import (
 
 	"github.com/google/uuid"
 	spb "github.com/openconfig/gribi/v1/proto/service"
+	"google.golang.org/protobuf/proto"
 
 	"verifsim/simnet"
 	"verifsim/simrt"
@@ -443,17 +444,44 @@ func (e *env) modify(s *session, st *Step) {
 	}
 	simrt.AwaitQuiescence("modify")
 	// (an earlier session that is still connected may be sent the results of operations it left held, if a
-	// server routes them to their owner: read those streams first, their effects precede what follows)
+	// server routes them to their owner: they are consequences of what this request installed)
+	var post []*spb.AFTResult
+	for _, o := range e.sess {
+		if o != s && o.mc != nil && !o.dead && !o.closed && e.sc.Family == "g1" {
+			e.postpone = &post
+		}
+	}
+	e.drainAndProcess(s)
+	e.postpone = nil
 	for _, o := range e.sess {
 		if o != s && o.mc != nil && !o.dead && !o.closed && e.sc.Family == "g1" {
 			if rs, _ := e.drain(o); len(rs) > 0 {
 				e.probe("results delivered on the stream of an earlier, still connected session")
+				// what is installed under the keys these results write may be their payload or the one that is
+				// there now (written by the request just processed): see altPayload
+				for _, r := range rs {
+					for _, res := range r.GetResult() {
+						if rec := o.sent[res.GetId()]; rec != nil && res.GetStatus() == spb.AFTResult_RIB_PROGRAMMED {
+							if _, en, _ := e.model.Analyse(rec.op); en != nil {
+								if cur := e.model.Tab[en.Key]; cur != nil && cur.Msg != nil {
+									if e.altPayload == nil {
+										e.altPayload = map[Key][]proto.Message{}
+									}
+									e.altPayload[en.Key] = append(e.altPayload[en.Key], cur.Msg)
+								}
+							}
+						}
+					}
+				}
 				e.processResults(o, rs)
 			}
 		}
 	}
-	e.drainAndProcess(s)
+	if len(post) > 0 {
+		e.processResults(s, []*spb.ModifyResponse{{Result: post}})
+	}
 	e.afterQuiescence(s)
+	e.altPayload = nil
 	e.invalidKeys = nil
 }
 
